@@ -8,6 +8,7 @@ import (
 	"bytes"
 	"encoding/json"
 	"fmt"
+	"sort"
 	"strings"
 )
 
@@ -294,7 +295,14 @@ func isValidSplit(s Type, exp *SplitExp, pipeline *Pipeline, ast *Ast) error {
 			}
 		}
 	case *MapExp:
-		for i, subexp := range inner.Value {
+		// Visit keys in sorted order so that error messages are deterministic.
+		keys := make([]string, 0, len(inner.Value))
+		for i := range inner.Value {
+			keys = append(keys, i)
+		}
+		sort.Strings(keys)
+		for _, i := range keys {
+			subexp := inner.Value[i]
 			if err := s.IsValidExpression(subexp, pipeline, ast); err != nil {
 				errs = append(errs, &IncompatibleTypeError{
 					Message: fmt.Sprintf("split key %s", i),
